@@ -12,6 +12,8 @@ pub const NEVER: u64 = u64::MAX;
 /// what `add` carrying a non-zero CAS is answered on a key that is really absent (learnt, process wide)
 static ADD_CAS_ON_ABSENT: std::sync::atomic::AtomicU32 = std::sync::atomic::AtomicU32::new(u32::MAX);
 static ADD_CAS_ON_ABSENT_VARIES: std::sync::atomic::AtomicBool = std::sync::atomic::AtomicBool::new(false);
+/// flags carried by counters that incr/decr created (learnt, process wide)
+static CREATED_COUNTER_FLAGS: std::sync::atomic::AtomicU64 = std::sync::atomic::AtomicU64::new(u64::MAX);
 
 #[derive(Clone, Debug, PartialEq)]
 pub enum CasArg {
@@ -472,6 +474,15 @@ impl Model {
         match it.flags {
             Some(f) if f != rf => {
                 return Err(viol(&tags, "hit-flags", format!("{}: hit returned flags {:#x}, stored {:#x}", what, rf, f)));
+            }
+            None if it.last == "counter" => {
+                // L-f leaves open which flags a counter created by incr/decr gets - but not that they are a
+                // property of the server, not of the request: whatever the first created counter carried, every
+                // other one must carry too
+                let prev = CREATED_COUNTER_FLAGS.swap(rf as u64, std::sync::atomic::Ordering::Relaxed);
+                if prev != u64::MAX && prev != rf as u64 {
+                    return Err(viol(&["C07", "C01"], "created-counter-flags-vary", format!("{}: a counter created by incr/decr carries flags {:#x}, an earlier one carried {:#x}: the flags of a created counter depend on something in the request", what, rf, prev)));
+                }
             }
             _ => {}
         }
